@@ -31,6 +31,41 @@ type internalHandler struct {
 	filter         any // Predicate function for filtering events
 	mu             sync.Mutex
 	executed       uint32 // For once handlers, atomically tracks if executed
+
+	// Async+Sequential handlers process events in the order they were dispatched
+	orderMu    sync.Mutex
+	orderCond  *sync.Cond
+	nextTicket uint64
+	serving    uint64
+}
+
+// takeTicket reserves the next position in the handler's dispatch order.
+func (h *internalHandler) takeTicket() uint64 {
+	h.orderMu.Lock()
+	defer h.orderMu.Unlock()
+	if h.orderCond == nil {
+		h.orderCond = sync.NewCond(&h.orderMu)
+	}
+	t := h.nextTicket
+	h.nextTicket++
+	return t
+}
+
+// awaitTurn blocks until every earlier ticket has finished.
+func (h *internalHandler) awaitTurn(ticket uint64) {
+	h.orderMu.Lock()
+	for h.serving != ticket {
+		h.orderCond.Wait()
+	}
+	h.orderMu.Unlock()
+}
+
+// finishTurn lets the next ticket run.
+func (h *internalHandler) finishTurn() {
+	h.orderMu.Lock()
+	h.serving++
+	h.orderCond.Broadcast()
+	h.orderMu.Unlock()
 }
 
 // PanicHandler is called when a handler panics
@@ -408,9 +443,19 @@ func PublishContext[T any](bus *EventBus, ctx context.Context, event T) {
 		if h.async {
 			wg.Add(1)
 			bus.wg.Add(1)
+			// Sequential async handlers take a ticket in dispatch order
+			ordered := h.sequential
+			var ticket uint64
+			if ordered {
+				ticket = h.takeTicket()
+			}
 			go func(handler *internalHandler) {
 				defer wg.Done()
 				defer bus.wg.Done()
+				if ordered {
+					handler.awaitTurn(ticket)
+					defer handler.finishTurn()
+				}
 
 				// Check context before executing
 				select {
